@@ -106,7 +106,7 @@ def run():
     ref_operands = out["ref"]["events"][-1][4:]
     names = {"obj": ["keys", "values", "items", "keys(private)", "values(private)", "items(private)", "iteration", "index", "call", "structure", "print"],
              "map": ["keys", "values", "items", "iteration", "len", "index", "structure", "print"]}
-    nontrivial = comparisons = 0
+    nontrivial = comparisons = discarded = 0
     for i, c in enumerate(cases):
         o = out[str(i)]
         lit = reqs[i]["lit"]
@@ -125,6 +125,9 @@ def run():
                 ck.reject(f"C09:{c['kind']}:second-evaluation-differs", f"{lit} evaluated twice gives {ev[-2]} then {again}", {"src": reqs[i]["src"]})
         dup = len(c["pairs"]) + sum({"M1": 4, "M2": 3, "O1": 3, "O2": 3, "M3": 3}[s] for s in c["spreads"]) > len(c["all"])
         nontrivial += 1 if dup else 0
+        if o["end"].startswith(("discarded:", "fuel:")):      # not evaluated to the end (deadline under load): nothing to judge
+            discarded += 1
+            continue
         if len(ev) != len(exp):
             ck.reject(f"C09:{c['kind']}:aborted", f"{lit}: program ended with {o['end']} after {len(ev)} accessors", {"src": reqs[i]["src"], "observed": o["end"], "events": ev})
             continue
@@ -150,6 +153,9 @@ def run():
                 shape = "dup" if dup else "nodup"
                 ck.reject(f"C09:{c['kind']}:{nm}:{shape}:spreads={'+'.join(c['spreads']) or '-'}", f"{lit}: {nm} gives {got}, the model gives {want}",
                           {"src": reqs[i]["src"], "accessor": nm, "observed": got, "expected": want})
+    ck.cov["discarded"] = discarded
+    if discarded > max(20, len(cases) // 20):
+        raise pvlib.Broken(f"{discarded} of {len(cases)} literal programs were not evaluated to the end: the machine is too loaded to judge")
     ck.sample({"literal": reqs[len(cases) // 2]["lit"], "events": out[str(len(cases) // 2)]["events"][:4]})
     ck.cov["evaluations"] = comparisons
     ck.cov["distinct_nontrivial"] = nontrivial
